@@ -320,4 +320,1452 @@ theorem run_mu {c : Cfg} {s s' : St} {es : List Ev} (h : run c s es = some s') :
       have := mu_decrease hs
       simp only [List.length_cons]; omega
 
+/-! ## the invariant of reachable states -/
+
+/-- strong count of the `SharedFd<PidFdWrap>` at each point of the wait -/
+def refsAt (c : Cfg) : WaitPc → Nat
+  | .idle => 1
+  | .started => if c.pidfd then 2 else 1
+  | .ready => 1
+  | .taken => 0
+  | .done _ => if c.pidfd then 0 else 1
+
+/-- invariant of every reachable state (`p` = the payload the writer started with) -/
+structure Inv (c : Cfg) (p : Bytes) (s : St) : Prop where
+  nin : s.nin = s.pin.length
+  nout : s.nout = s.pout.length
+  nerr : s.nerr = s.perr.length
+  capIn : s.pin.length ≤ c.capIn
+  capOut : s.pout.length ≤ c.capOut
+  capErr : s.perr.length ≤ c.capErr
+  sent : s.wsent ++ s.wleft = p
+  gotpin : s.got ++ s.pin = s.wsent
+  outs : s.rout ++ s.pout = s.cout
+  errs : s.rerr ++ s.perr = s.cerr
+  epipe : s.wepipe = true → s.status.isSome = true
+  epipeLeft : s.wepipe = true → s.wleft ≠ []
+  closed : s.wclosed = true → s.wleft = [] ∨ s.wepipe = true
+  dead : s.status.isSome = true → s.script = [] ∧ s.pend = []
+  pdst : s.pend ≠ [] → s.pdst ≠ .null
+  routDone : s.routDone = true → s.status.isSome = true ∧ s.pout = []
+  rerrDone : s.rerrDone = true → s.status.isSome = true ∧ s.perr = []
+  wtExited : (s.wt = .ready ∨ s.wt = .taken) → s.status.isSome = true
+  wtDone : ∀ st, s.wt = .done st → s.status = some st
+  refs : s.fdRefs = refsAt c s.wt
+  wtPidfd : (s.wt = .ready ∨ s.wt = .taken) → c.pidfd = true
+  wblockLe : s.wblock ≤ s.wleft.length
+  wblockNB : c.blocking = false → s.wblock = 0
+  wblockOpen : 0 < s.wblock → s.wepipe = false ∧ s.wclosed = false ∧ depsOk c s .W = true
+
+theorem inv_init (c : Cfg) (script : List CAct) (payload : Bytes) (b : Bool) :
+    Inv c (init script payload b).wleft (init script payload b) := by
+  constructor <;> simp [init, refsAt] <;> intro h1 h2 <;> simp_all
+
+theorem offered_le {c : Cfg} {s : St} (h : s.wblock ≤ s.wleft.length) : offered c s ≤ s.wleft.length := by
+  unfold offered; split
+  · simp [List.length_take]; omega
+  · omega
+
+theorem inv_wr {c : Cfg} {p : Bytes} {s s' : St} {k : Nat} (hi : Inv c p s) (h : step c s (.wr k) = some s') :
+    Inv c p s' := by
+  obtain ⟨i1, i2, i3, i4, i5, i6, i7, i8, i9, i10, i11, i24, i12, i13, i14, i15, i16, i17, i18, i19, i23, i20, i21, i22⟩ := hi
+  obtain ⟨g1, g2, g3, g4, g5, g6, g7, g8, rfl⟩ := stepWr_some h
+  clear h
+  have hoff := offered_le (c := c) i20
+  constructor <;> simp_all [depsOk, St.done, List.length_drop]
+  · rw [← List.append_assoc, i8]
+  · split <;> omega
+theorem inv_wrEpipe {c : Cfg} {p : Bytes} {s s' : St} (hi : Inv c p s) (h : step c s (.wrEpipe) = some s') :
+    Inv c p s' := by
+  obtain ⟨i1, i2, i3, i4, i5, i6, i7, i8, i9, i10, i11, i24, i12, i13, i14, i15, i16, i17, i18, i19, i23, i20, i21, i22⟩ := hi
+  obtain ⟨g1, g2, g3, g4, g5, rfl⟩ := stepWrEpipe_some h
+  clear h
+  constructor <;> simp_all [depsOk, St.done]
+theorem inv_wclose {c : Cfg} {p : Bytes} {s s' : St} (hi : Inv c p s) (h : step c s (.wclose) = some s') :
+    Inv c p s' := by
+  obtain ⟨i1, i2, i3, i4, i5, i6, i7, i8, i9, i10, i11, i24, i12, i13, i14, i15, i16, i17, i18, i19, i23, i20, i21, i22⟩ := hi
+  obtain ⟨g1, g2, g3, g4, rfl⟩ := stepWclose_some h
+  clear h
+  constructor <;> simp_all [depsOk, St.done]
+theorem inv_rd {c : Cfg} {p : Bytes} {s s' : St} {d : Dst} {k : Nat} (hi : Inv c p s) (h : step c s (.rd d k) = some s') :
+    Inv c p s' := by
+  obtain ⟨i1, i2, i3, i4, i5, i6, i7, i8, i9, i10, i11, i24, i12, i13, i14, i15, i16, i17, i18, i19, i23, i20, i21, i22⟩ := hi
+  cases d with
+  | out =>
+    obtain ⟨g1, g2, g3, g4, g5, g6, rfl⟩ := stepRd_out_some h
+    clear h
+    constructor <;> simp_all [depsOk, St.done, List.length_drop] <;> omega
+  | err =>
+    obtain ⟨g1, g2, g3, g4, g5, g6, rfl⟩ := stepRd_err_some h
+    clear h
+    constructor <;> simp_all [depsOk, St.done, List.length_drop] <;> omega
+  | null => simp [step, stepRd_null] at h
+theorem inv_rdEof {c : Cfg} {p : Bytes} {s s' : St} {d : Dst} (hi : Inv c p s) (h : step c s (.rdEof d) = some s') :
+    Inv c p s' := by
+  obtain ⟨i1, i2, i3, i4, i5, i6, i7, i8, i9, i10, i11, i24, i12, i13, i14, i15, i16, i17, i18, i19, i23, i20, i21, i22⟩ := hi
+  cases d with
+  | out =>
+    obtain ⟨g1, g2, g3, g4, g5, rfl⟩ := stepRdEof_out_some h
+    clear h
+    constructor <;> simp_all [depsOk, St.done]
+  | err =>
+    obtain ⟨g1, g2, g3, g4, g5, rfl⟩ := stepRdEof_err_some h
+    clear h
+    constructor <;> simp_all [depsOk, St.done]
+  | null => simp [step, stepRdEof_null] at h
+theorem inv_wtStart {c : Cfg} {p : Bytes} {s s' : St} (hi : Inv c p s) (h : step c s (.wtStart) = some s') :
+    Inv c p s' := by
+  obtain ⟨i1, i2, i3, i4, i5, i6, i7, i8, i9, i10, i11, i24, i12, i13, i14, i15, i16, i17, i18, i19, i23, i20, i21, i22⟩ := hi
+  obtain ⟨g1, g2, g3, rfl⟩ := stepWtStart_some h
+  clear h
+  constructor <;> simp_all [depsOk, St.done, refsAt, WaitPc.isDone]
+theorem inv_wtReady {c : Cfg} {p : Bytes} {s s' : St} (hi : Inv c p s) (h : step c s (.wtReady) = some s') :
+    Inv c p s' := by
+  obtain ⟨i1, i2, i3, i4, i5, i6, i7, i8, i9, i10, i11, i24, i12, i13, i14, i15, i16, i17, i18, i19, i23, i20, i21, i22⟩ := hi
+  obtain ⟨g1, g2, g3, g4, g5, rfl⟩ := stepWtReady_some h
+  clear h
+  constructor <;> simp_all [depsOk, St.done, refsAt, WaitPc.isDone]
+theorem inv_wtTake {c : Cfg} {p : Bytes} {s s' : St} (hi : Inv c p s) (h : step c s (.wtTake) = some s') :
+    Inv c p s' := by
+  obtain ⟨i1, i2, i3, i4, i5, i6, i7, i8, i9, i10, i11, i24, i12, i13, i14, i15, i16, i17, i18, i19, i23, i20, i21, i22⟩ := hi
+  obtain ⟨g1, g2, g3, g4, g5, rfl⟩ := stepWtTake_some h
+  clear h
+  constructor <;> simp_all [depsOk, St.done, refsAt, WaitPc.isDone]
+theorem inv_wtDone {c : Cfg} {p : Bytes} {s s' : St} (hi : Inv c p s) (h : step c s (.wtDone) = some s') :
+    Inv c p s' := by
+  obtain ⟨i1, i2, i3, i4, i5, i6, i7, i8, i9, i10, i11, i24, i12, i13, i14, i15, i16, i17, i18, i19, i23, i20, i21, i22⟩ := hi
+  obtain ⟨g1, g2, g3, st, g4, rfl⟩ := stepWtDone_some h
+  clear h
+  have hr : s.fdRefs = refsAt c (.done st) := by
+    rw [i19, g3]; cases hp : c.pidfd <;> simp [refsAt, Cfg.lastPc, hp]
+  clear i19 g3
+  constructor <;> simp_all [depsOk, St.done, WaitPc.isDone]
+theorem inv_cRead {c : Cfg} {p : Bytes} {s s' : St} {k : Nat} (hi : Inv c p s) (h : step c s (.cRead k) = some s') :
+    Inv c p s' := by
+  obtain ⟨i1, i2, i3, i4, i5, i6, i7, i8, i9, i10, i11, i24, i12, i13, i14, i15, i16, i17, i18, i19, i23, i20, i21, i22⟩ := hi
+  obtain ⟨g1, g2, lim, blk, dst, r, hs, g3, g4, g5, g6, rfl⟩ := stepCRead_some (c := c) h
+  clear h
+  have e1 : s.got ++ s.pin.take k ++ s.pin.drop k = s.wsent := by
+    rw [List.append_assoc, List.take_append_drop, i8]
+  cases dst <;> dsimp only <;> constructor <;> dsimp only <;>
+    first
+      | assumption
+      | (simp [List.length_drop, List.length_take, i1]; done)
+      | (simp_all [depsOk, St.done, List.length_drop, List.length_take]; done)
+      | (simp_all [depsOk, St.done, List.length_drop, List.length_take]; omega)
+theorem inv_cEof {c : Cfg} {p : Bytes} {s s' : St} (hi : Inv c p s) (h : step c s (.cEof) = some s') :
+    Inv c p s' := by
+  obtain ⟨i1, i2, i3, i4, i5, i6, i7, i8, i9, i10, i11, i24, i12, i13, i14, i15, i16, i17, i18, i19, i23, i20, i21, i22⟩ := hi
+  obtain ⟨g1, g2, g3, g4, lim, blk, dst, r, hs, g5, rfl⟩ := stepCEof_some (c := c) h
+  clear h
+  constructor <;> dsimp only <;>
+    first
+      | assumption
+      | (simp [g1]; done)
+theorem inv_cWrite {c : Cfg} {p : Bytes} {s s' : St} {k : Nat} (hi : Inv c p s) (h : step c s (.cWrite k) = some s') :
+    Inv c p s' := by
+  obtain ⟨i1, i2, i3, i4, i5, i6, i7, i8, i9, i10, i11, i24, i12, i13, i14, i15, i16, i17, i18, i19, i23, i20, i21, i22⟩ := hi
+  obtain ⟨g1, g2, g3, hh⟩ := stepCWrite_some h
+  clear h
+  have hk : (s.pend.take k).length = k := by simp [List.length_take]; omega
+  have hne : s.pend ≠ [] := by intro h0; simp [h0] at g3; omega
+  rcases hh with ⟨g4, g5, rfl⟩ | ⟨g4, g5, rfl⟩ <;> constructor <;> dsimp only <;>
+    first
+      | assumption
+      | (simp [g1]; done)
+      | (simp [List.length_append, hk]; omega)
+      | (rw [← List.append_assoc, i9]; done)
+      | (rw [← List.append_assoc, i10]; done)
+      | (intro _; assumption)
+      | (simp_all; done)
+theorem inv_cStep {c : Cfg} {p : Bytes} {s s' : St} (hi : Inv c p s) (h : step c s (.cStep) = some s') :
+    Inv c p s' := by
+  obtain ⟨i1, i2, i3, i4, i5, i6, i7, i8, i9, i10, i11, i24, i12, i13, i14, i15, i16, i17, i18, i19, i23, i20, i21, i22⟩ := hi
+  obtain ⟨g1, g2, hc⟩ := stepCStep_some (c := c) h
+  clear h
+  cases hc with
+  | fallOff hs h =>
+    subst h
+    constructor <;> dsimp only <;>
+      first
+        | assumption
+        | (simp [g1, g2, hs]; done)
+        | (simp_all; done)
+  | copyDone blk dst r hs h =>
+    subst h
+    constructor <;> dsimp only <;> first | assumption | (simp [g1]; done)
+  | emitNull bs r hs h =>
+    subst h
+    constructor <;> dsimp only <;> first | assumption | (simp [g1]; done)
+  | emit d bs r hs hd h =>
+    subst h
+    constructor <;> dsimp only <;> first | assumption | (simp [g1, hd]; done)
+  | nop r hs h =>
+    subst h
+    constructor <;> dsimp only <;> first | assumption | (simp [g1]; done)
+  | exit code r hs h =>
+    subst h
+    constructor <;> dsimp only <;>
+      first
+        | assumption
+        | (simp [g1, g2]; done)
+        | (simp_all; done)
+  | kill sg r hs h =>
+    subst h
+    constructor <;> dsimp only <;>
+      first
+        | assumption
+        | (simp [g1, g2]; done)
+        | (simp_all; done)
+
+theorem inv_step {c : Cfg} {p : Bytes} {s s' : St} {e : Ev} (hi : Inv c p s) (h : step c s e = some s') :
+    Inv c p s' := by
+  cases e with
+  | wr k => exact inv_wr hi h
+  | wrEpipe => exact inv_wrEpipe hi h
+  | wclose => exact inv_wclose hi h
+  | rd d k => exact inv_rd hi h
+  | rdEof d => exact inv_rdEof hi h
+  | wtStart => exact inv_wtStart hi h
+  | wtReady => exact inv_wtReady hi h
+  | wtTake => exact inv_wtTake hi h
+  | wtDone => exact inv_wtDone hi h
+  | cRead k => exact inv_cRead hi h
+  | cEof => exact inv_cEof hi h
+  | cWrite k => exact inv_cWrite hi h
+  | cStep => exact inv_cStep hi h
+
+theorem inv_run {c : Cfg} {p : Bytes} {s s' : St} {es : List Ev} (hi : Inv c p s) (h : run c s es = some s') :
+    Inv c p s' := by
+  induction es generalizing s with
+  | nil => simp [run] at h; subst h; exact hi
+  | cons e es ih =>
+    simp only [run_cons] at h
+    cases hs : step c s e with
+    | none => simp [hs] at h
+    | some s2 => simp only [hs] at h; exact ih (inv_step hi hs) h
+
+/-! ## the denotation is conserved by every step -/
+
+theorem limTake_split {lim : Option Nat} {k : Nat} (inp : Bytes) (h : limOk lim k = true) :
+    limTake lim inp = inp.take k ++ limTake (limSub lim k) (inp.drop k) := by
+  cases lim with
+  | none => simp [limTake, limSub]
+  | some n =>
+    simp [limOk] at h
+    simp only [limTake, limSub]
+    have : n = k + (n - k) := by omega
+    conv => lhs; rw [this, List.take_add]
+
+theorem limDrop_split {lim : Option Nat} {k : Nat} (inp : Bytes) (h : limOk lim k = true) :
+    limDrop lim inp = limDrop (limSub lim k) (inp.drop k) := by
+  cases lim with
+  | none => simp [limDrop, limSub]
+  | some n =>
+    simp [limOk] at h
+    simp only [limDrop, limSub, List.drop_drop]
+    congr 1; omega
+
+@[simp] theorem limTake_nil (lim : Option Nat) : limTake lim [] = [] := by cases lim <;> simp [limTake]
+@[simp] theorem limDrop_nil (lim : Option Nat) : limDrop lim [] = [] := by cases lim <;> simp [limDrop]
+@[simp] theorem limTake_zero (inp : Bytes) : limTake (some 0) inp = [] := by simp [limTake]
+@[simp] theorem limDrop_zero (inp : Bytes) : limDrop (some 0) inp = inp := by simp [limDrop]
+
+@[simp] theorem Den.read_nil (d : Den) (dst : Dst) : d.read dst [] = d := by
+  cases dst <;> simp [Den.read, Den.emit]
+
+theorem den_alive {s : St} (h : s.status = none) :
+    den s = ⟨s.cout ++ pendFor s .out ++ (denS s.script (s.pin ++ s.wleft)).out,
+             s.cerr ++ pendFor s .err ++ (denS s.script (s.pin ++ s.wleft)).err,
+             s.got ++ (denS s.script (s.pin ++ s.wleft)).got,
+             s.sunk + (denS s.script (s.pin ++ s.wleft)).sunk,
+             (denS s.script (s.pin ++ s.wleft)).st⟩ := by
+  simp [den, h]
+
+theorem den_dead {s : St} {st : Status} (h : s.status = some st) :
+    den s = ⟨s.cout, s.cerr, s.got, s.sunk, st⟩ := by
+  simp [den, h]
+
+theorem den_step {c : Cfg} {p : Bytes} {s s' : St} {e : Ev} (hi : Inv c p s) (h : step c s e = some s') :
+    den s' = den s := by
+  cases e with
+  | wr k =>
+    obtain ⟨g1, g2, g3, g4, g5, g6, g7, g8, rfl⟩ := stepWr_some h
+    rw [den_alive g4, den_alive (by simpa using g4)]
+    simp [pendFor, List.append_assoc]
+  | wrEpipe =>
+    obtain ⟨g1, g2, g3, g4, g5, rfl⟩ := stepWrEpipe_some h
+    obtain ⟨st, hst⟩ := Option.isSome_iff_exists.mp g5
+    rw [den_dead hst, den_dead (by simpa using hst)]
+  | wclose =>
+    obtain ⟨g1, g2, g3, g4, rfl⟩ := stepWclose_some h
+    simp [den, pendFor]
+  | rd d k =>
+    cases d with
+    | out => obtain ⟨g1, g2, g3, g4, g5, g6, rfl⟩ := stepRd_out_some h; simp [den, pendFor]
+    | err => obtain ⟨g1, g2, g3, g4, g5, g6, rfl⟩ := stepRd_err_some h; simp [den, pendFor]
+    | null => simp [step, stepRd_null] at h
+  | rdEof d =>
+    cases d with
+    | out => obtain ⟨g1, g2, g3, g4, g5, rfl⟩ := stepRdEof_out_some h; simp [den, pendFor]
+    | err => obtain ⟨g1, g2, g3, g4, g5, rfl⟩ := stepRdEof_err_some h; simp [den, pendFor]
+    | null => simp [step, stepRdEof_null] at h
+  | wtStart => obtain ⟨g1, g2, g3, rfl⟩ := stepWtStart_some h; simp [den, pendFor]
+  | wtReady => obtain ⟨g1, g2, g3, g4, g5, rfl⟩ := stepWtReady_some h; simp [den, pendFor]
+  | wtTake => obtain ⟨g1, g2, g3, g4, g5, rfl⟩ := stepWtTake_some h; simp [den, pendFor]
+  | wtDone => obtain ⟨g1, g2, g3, st, g4, rfl⟩ := stepWtDone_some h; simp [den, pendFor]
+  | cRead k =>
+    obtain ⟨g1, g2, lim, blk, dst, r, hs, g3, g4, g5, g6, rfl⟩ := stepCRead_some (c := c) h
+    have ht : (s.pin ++ s.wleft).take k = s.pin.take k := by
+      rw [List.take_append_of_le_length g5]
+    have hd : (s.pin ++ s.wleft).drop k = s.pin.drop k ++ s.wleft := by
+      rw [List.drop_append_of_le_length g5]
+    rw [den_alive g1]
+    cases dst <;> dsimp only <;> rw [den_alive (by simpa using g1)] <;>
+      simp [pendFor, g2, hs, denS, limTake_split (s.pin ++ s.wleft) g6, limDrop_split (s.pin ++ s.wleft) g6, ht, hd,
+        Den.read, Den.emit, List.append_assoc, List.length_take] <;> omega
+  | cEof =>
+    obtain ⟨g1, g2, g3, g4, lim, blk, dst, r, hs, g5, rfl⟩ := stepCEof_some (c := c) h
+    have hw : s.wleft = [] := by
+      rcases hi.closed g4 with h1 | h1
+      · exact h1
+      · have := hi.epipe h1; simp [g1] at this
+    rw [den_alive g1, den_alive (by simpa using g1)]
+    simp [pendFor, g2, g3, hw, hs, denS]
+  | cWrite k =>
+    obtain ⟨g1, g2, g3, hh⟩ := stepCWrite_some h
+    rw [den_alive g1]
+    rcases hh with ⟨g4, g5, rfl⟩ | ⟨g4, g5, rfl⟩ <;> rw [den_alive (by simpa using g1)] <;>
+      simp [pendFor, g4, List.append_assoc]
+  | cStep =>
+    obtain ⟨g1, g2, hc⟩ := stepCStep_some (c := c) h
+    cases hc with
+    | fallOff hs h => subst h; simp [den, g1, g2, hs, denS, pendFor]
+    | copyDone blk dst r hs h =>
+      subst h; rw [den_alive g1, den_alive (by simpa using g1)]; simp [pendFor, g2, hs, denS]
+    | emitNull bs r hs h =>
+      subst h; rw [den_alive g1, den_alive (by simpa using g1)]; simp [pendFor, g2, hs, denS, Den.emit]
+    | emit d bs r hs hd h =>
+      subst h; rw [den_alive g1, den_alive (by simpa using g1)]
+      cases d <;> simp [pendFor, g2, hs, denS, Den.emit] at hd ⊢
+    | nop r hs h =>
+      subst h; rw [den_alive g1, den_alive (by simpa using g1)]; simp [pendFor, g2, hs, denS]
+    | exit code r hs h => subst h; simp [den, g1, g2, hs, denS, pendFor]
+    | kill sg r hs h => subst h; simp [den, g1, g2, hs, denS, pendFor]
+
+theorem den_run {c : Cfg} {p : Bytes} {s s' : St} {es : List Ev} (hi : Inv c p s) (h : run c s es = some s') :
+    den s' = den s := by
+  induction es generalizing s with
+  | nil => simp [run] at h; subst h; rfl
+  | cons e es ih =>
+    simp only [run_cons] at h
+    cases hs : step c s e with
+    | none => simp [hs] at h
+    | some s2 => simp only [hs] at h; rw [ih (inv_step hi hs) h, den_step hi hs]
+
+/-! ## progress -/
+
+theorem wf_step {c : Cfg} {s s' : St} {e : Ev} (hw : wfScript s.script = true) (h : step c s e = some s') :
+    wfScript s'.script = true := by
+  cases e with
+  | wr k => obtain ⟨-, -, -, -, -, -, -, -, rfl⟩ := stepWr_some h; exact hw
+  | wrEpipe => obtain ⟨-, -, -, -, -, rfl⟩ := stepWrEpipe_some h; exact hw
+  | wclose => obtain ⟨-, -, -, -, rfl⟩ := stepWclose_some h; exact hw
+  | rd d k =>
+    cases d with
+    | out => obtain ⟨-, -, -, -, -, -, rfl⟩ := stepRd_out_some h; exact hw
+    | err => obtain ⟨-, -, -, -, -, -, rfl⟩ := stepRd_err_some h; exact hw
+    | null => simp [step, stepRd_null] at h
+  | rdEof d =>
+    cases d with
+    | out => obtain ⟨-, -, -, -, -, rfl⟩ := stepRdEof_out_some h; exact hw
+    | err => obtain ⟨-, -, -, -, -, rfl⟩ := stepRdEof_err_some h; exact hw
+    | null => simp [step, stepRdEof_null] at h
+  | wtStart => obtain ⟨-, -, -, rfl⟩ := stepWtStart_some h; exact hw
+  | wtReady => obtain ⟨-, -, -, -, -, rfl⟩ := stepWtReady_some h; exact hw
+  | wtTake => obtain ⟨-, -, -, -, -, rfl⟩ := stepWtTake_some h; exact hw
+  | wtDone => obtain ⟨-, -, -, st, -, rfl⟩ := stepWtDone_some h; exact hw
+  | cRead k =>
+    obtain ⟨-, -, lim, blk, dst, r, hs, -, -, -, -, rfl⟩ := stepCRead_some (c := c) h
+    rw [hs] at hw
+    cases dst <;> simpa [wfScript] using hw
+  | cEof =>
+    obtain ⟨-, -, -, -, lim, blk, dst, r, hs, -, rfl⟩ := stepCEof_some (c := c) h
+    rw [hs] at hw; simp [wfScript] at hw; exact hw.2
+  | cWrite k =>
+    obtain ⟨-, -, -, hh⟩ := stepCWrite_some h
+    rcases hh with ⟨-, -, rfl⟩ | ⟨-, -, rfl⟩ <;> exact hw
+  | cStep =>
+    obtain ⟨-, -, hc⟩ := stepCStep_some (c := c) h
+    cases hc with
+    | fallOff hs h => subst h; exact hw
+    | copyDone blk dst r hs h => subst h; rw [hs] at hw; simp [wfScript] at hw; exact hw.2
+    | emitNull bs r hs h => subst h; rw [hs] at hw; simpa [wfScript] using hw
+    | emit d bs r hs hd h => subst h; rw [hs] at hw; simpa [wfScript] using hw
+    | nop r hs h => subst h; rw [hs] at hw; simpa [wfScript] using hw
+    | exit code r hs h => subst h; rfl
+    | kill sg r hs h => subst h; rfl
+
+theorem wf_run {c : Cfg} {s s' : St} {es : List Ev} (hw : wfScript s.script = true) (h : run c s es = some s') :
+    wfScript s'.script = true := by
+  induction es generalizing s with
+  | nil => simp [run] at h; subst h; exact hw
+  | cons e es ih =>
+    simp only [run_cons] at h
+    cases hs : step c s e with
+    | none => simp [hs] at h
+    | some s2 => simp only [hs] at h; exact ih (wf_step hw hs) h
+
+/-- some step is possible -/
+def CanStep (c : Cfg) (s : St) : Prop := ∃ e, (step c s e).isSome = true
+
+theorem not_stuck_of_canStep {c : Cfg} {s : St} (h : CanStep c s) : ¬ Stuck c s := by
+  obtain ⟨e, he⟩ := h
+  intro hs; rw [hs e] at he; cases he
+
+/-- sizes that make sense: every pipe holds at least a byte, every operation offers at least a byte -/
+structure Cfg.Pos (c : Cfg) : Prop where
+  capIn : 0 < c.capIn
+  capOut : 0 < c.capOut
+  capErr : 0 < c.capErr
+  wchunk : 0 < c.wchunk
+  rchunk : 0 < c.rchunk
+
+/-- the plans have no cyclic waiting: while something is left to do, some activity may run -/
+theorem exists_ready (c : Cfg) (s : St) (h : s.completed = false) :
+    ∃ a, s.done a = false ∧ depsOk c s a = true := by
+  simp only [St.completed] at h
+  cases hp : c.plan <;> cases hw : s.wclosed <;> cases hro : s.routDone <;> cases hre : s.rerrDone <;>
+    cases hwt : s.wt.isDone <;> simp [hw, hro, hre, hwt] at h <;>
+    first
+      | (refine ⟨.W, ?_, ?_⟩ <;> (simp [St.done, depsOk, hp, Plan.deps, hw, hro, hre, hwt]; done))
+      | (refine ⟨.Wt, ?_, ?_⟩ <;> (simp [St.done, depsOk, hp, Plan.deps, hw, hro, hre, hwt]; done))
+      | (refine ⟨.Ro, ?_, ?_⟩ <;> (simp [St.done, depsOk, hp, Plan.deps, hw, hro, hre, hwt]; done))
+      | (refine ⟨.Re, ?_, ?_⟩ <;> (simp [St.done, depsOk, hp, Plan.deps, hw, hro, hre, hwt]; done))
+
+
+theorem can_wrEpipe {c : Cfg} {s : St} (h1 : depsOk c s .W = true) (h2 : s.wepipe = false) (h3 : s.wclosed = false)
+    (h4 : s.wleft ≠ []) (h5 : s.status.isSome = true) : CanStep c s :=
+  ⟨.wrEpipe, by simp [step, stepWrEpipe, h1, h2, h3, h4, h5]⟩
+
+theorem can_wclose {c : Cfg} {s : St} (h1 : depsOk c s .W = true) (h2 : s.wblock = 0) (h3 : s.wclosed = false)
+    (h4 : s.wleft = [] ∨ s.wepipe = true) : CanStep c s :=
+  ⟨.wclose, by simp [step, stepWclose, h1, h2, h3, h4]⟩
+
+theorem can_wr1 {c : Cfg} {s : St} (h1 : depsOk c s .W = true) (h2 : s.wepipe = false) (h3 : s.wclosed = false)
+    (h4 : s.status = none) (h5 : 1 ≤ offered c s) (h6 : 1 ≤ s.wleft.length) (h7 : s.nin + 1 ≤ c.capIn) :
+    CanStep c s :=
+  ⟨.wr 1, by simp [step, stepWr, h1, h2, h3, h4, h5, h6, h7]⟩
+
+theorem can_rd_out {c : Cfg} {s : St} (hp : c.Pos) (h1 : depsOk c s .Ro = true) (h2 : s.wblock = 0)
+    (h3 : s.routDone = false) (h4 : s.pout ≠ []) : CanStep c s :=
+  ⟨.rd .out 1, by
+    have := hp.rchunk
+    have : 1 ≤ s.pout.length := List.length_pos_iff.mpr h4
+    simp [step, stepRd, h1, h2, h3]; omega⟩
+
+theorem can_rd_err {c : Cfg} {s : St} (hp : c.Pos) (h1 : depsOk c s .Re = true) (h2 : s.wblock = 0)
+    (h3 : s.rerrDone = false) (h4 : s.perr ≠ []) : CanStep c s :=
+  ⟨.rd .err 1, by
+    have := hp.rchunk
+    have : 1 ≤ s.perr.length := List.length_pos_iff.mpr h4
+    simp [step, stepRd, h1, h2, h3]; omega⟩
+
+theorem can_rdEof_out {c : Cfg} {s : St} (h1 : depsOk c s .Ro = true) (h2 : s.wblock = 0)
+    (h3 : s.routDone = false) (h4 : s.pout = []) (h5 : s.status.isSome = true) : CanStep c s :=
+  ⟨.rdEof .out, by simp [step, stepRdEof, h1, h2, h3, h4, h5]⟩
+
+theorem can_rdEof_err {c : Cfg} {s : St} (h1 : depsOk c s .Re = true) (h2 : s.wblock = 0)
+    (h3 : s.rerrDone = false) (h4 : s.perr = []) (h5 : s.status.isSome = true) : CanStep c s :=
+  ⟨.rdEof .err, by simp [step, stepRdEof, h1, h2, h3, h4, h5]⟩
+
+/-- once the child has exited the wait can always take its next step -/
+theorem can_wait {c : Cfg} {p : Bytes} {s : St} (hi : Inv c p s) (h1 : depsOk c s .Wt = true) (h2 : s.wblock = 0)
+    (h3 : s.wt.isDone = false) (h5 : s.status.isSome = true) : CanStep c s := by
+  obtain ⟨st, hst⟩ := Option.isSome_iff_exists.mp h5
+  cases hw : s.wt with
+  | idle => exact ⟨.wtStart, by simp [step, stepWtStart, h1, h2, hw]⟩
+  | started =>
+    cases hp : c.pidfd with
+    | true => exact ⟨.wtReady, by simp [step, stepWtReady, h1, h2, hw, hp, h5]⟩
+    | false => exact ⟨.wtDone, by simp [step, stepWtDone, h1, h2, hw, hp, Cfg.lastPc, hst]⟩
+  | ready =>
+    have hp := hi.wtPidfd (Or.inl hw)
+    have hr := hi.refs
+    rw [hw] at hr
+    exact ⟨.wtTake, by simp [step, stepWtTake, h1, h2, hw, hp, hr, refsAt]⟩
+  | taken =>
+    have hp := hi.wtPidfd (Or.inr hw)
+    exact ⟨.wtDone, by simp [step, stepWtDone, h1, h2, hw, hp, Cfg.lastPc, hst]⟩
+  | done st' => simp [hw, WaitPc.isDone] at h3
+
+/-- when the child has exited, whatever is left of the parent's work can proceed -/
+theorem progress_dead {c : Cfg} {p : Bytes} {s : St} (hp : c.Pos) (hi : Inv c p s)
+    (hst : s.status.isSome = true) (hn : s.completed = false) : CanStep c s := by
+  by_cases hb : 0 < s.wblock
+  · obtain ⟨e1, e2, e3⟩ := hi.wblockOpen hb
+    have hne : s.wleft ≠ [] := by
+      intro h0; have := hi.wblockLe; simp [h0] at this; omega
+    exact can_wrEpipe e3 e1 e2 hne hst
+  · have hb0 : s.wblock = 0 := by omega
+    obtain ⟨a, hd, hr⟩ := exists_ready c s hn
+    cases a with
+    | W =>
+      simp only [St.done] at hd
+      by_cases hq : s.wleft = [] ∨ s.wepipe = true
+      · exact can_wclose hr hb0 hd hq
+      · simp at hq
+        exact can_wrEpipe hr hq.2 hd hq.1 hst
+    | Ro =>
+      simp only [St.done] at hd
+      by_cases hq : s.pout = []
+      · exact can_rdEof_out hr hb0 hd hq hst
+      · exact can_rd_out hp hr hb0 hd hq
+    | Re =>
+      simp only [St.done] at hd
+      by_cases hq : s.perr = []
+      · exact can_rdEof_err hr hb0 hd hq hst
+      · exact can_rd_err hp hr hb0 hd hq
+    | Wt =>
+      simp only [St.done] at hd
+      exact can_wait hi hr hb0 hd hst
+
+
+/-- the child is blocked in a write: the pipe it writes to is full -/
+def Jammed (c : Cfg) (s : St) : Prop :=
+  s.status = none ∧ s.pend ≠ [] ∧
+    ((s.pdst = .out ∧ s.nout = c.capOut) ∨ (s.pdst = .err ∧ s.nerr = c.capErr))
+
+/-- the child is blocked in a read: stdin is empty and still open -/
+def Starved (s : St) : Prop :=
+  s.status = none ∧ s.pend = [] ∧ s.pin = [] ∧ s.wclosed = false ∧
+    ∃ lim blk dst r, s.script = .copy lim blk dst :: r ∧ lim ≠ some 0
+
+theorem can_cStep {c : Cfg} {s : St} (h1 : s.status = none) (h2 : s.pend = [])
+    (h3 : ∀ lim blk dst r, s.script = .copy lim blk dst :: r → lim = some 0) : CanStep c s := by
+  refine ⟨.cStep, ?_⟩
+  simp only [step, stepCStep]
+  rw [if_pos ⟨h1, h2⟩]
+  cases hs : s.script with
+  | nil => simp
+  | cons a r =>
+    cases a with
+    | copy lim blk dst => simp [h3 lim blk dst r hs]
+    | emit d bs => cases d <;> simp
+    | nop => simp
+    | exit code => simp
+    | kill sg => simp
+
+/-- while the child lives it can move unless it is blocked on a full or on an empty pipe -/
+theorem progress_alive {c : Cfg} {p : Bytes} {s : St} (hi : Inv c p s) (hw : wfScript s.script = true)
+    (hst : s.status = none) (hj : ¬ Jammed c s) (hs : ¬ Starved s) : CanStep c s := by
+  by_cases hpe : s.pend = []
+  · by_cases hc : ∃ lim blk dst r, s.script = .copy lim blk dst :: r ∧ lim ≠ some 0
+    case neg =>
+      refine can_cStep hst hpe ?_
+      intro lim blk dst r hscr
+      by_cases hl : lim = some 0
+      · exact hl
+      · exact absurd ⟨lim, blk, dst, r, hscr, hl⟩ hc
+    case pos =>
+      obtain ⟨lim, blk, dst, r, hscr, hl⟩ := hc
+      have hblk : 0 < blk := by rw [hscr] at hw; simp [wfScript] at hw; exact hw.1
+      by_cases hpin : s.pin = []
+      · by_cases hcl : s.wclosed = true
+        · exact ⟨.cEof, by simp [step, stepCEof, hst, hpe, hpin, hcl, hscr, hl]⟩
+        · exact absurd ⟨hst, hpe, hpin, by simpa using hcl, lim, blk, dst, r, hscr, hl⟩ hs
+      · refine ⟨.cRead 1, ?_⟩
+        have h1 : 1 ≤ s.pin.length := List.length_pos_iff.mpr hpin
+        have h2 : limOk lim 1 = true := by
+          cases lim with
+          | none => rfl
+          | some n => simp at hl; simp [limOk]; omega
+        cases dst <;> simp [step, stepCRead, hst, hpe, hscr, h1, h2] <;> omega
+  · have hd := hi.pdst hpe
+    have h1 : 1 ≤ s.pend.length := List.length_pos_iff.mpr hpe
+    cases hdst : s.pdst with
+    | null => exact absurd hdst hd
+    | out =>
+      by_cases hf : s.nout = c.capOut
+      · exact absurd ⟨hst, hpe, Or.inl ⟨hdst, hf⟩⟩ hj
+      · have := hi.capOut; have := hi.nout
+        exact ⟨.cWrite 1, by simp [step, stepCWrite, hst, h1, hdst]; omega⟩
+    | err =>
+      by_cases hf : s.nerr = c.capErr
+      · exact absurd ⟨hst, hpe, Or.inr ⟨hdst, hf⟩⟩ hj
+      · have := hi.capErr; have := hi.nerr
+        exact ⟨.cWrite 1, by simp [step, stepCWrite, hst, h1, hdst]; omega⟩
+
+/-- a jam is resolved by the reader of the full pipe, if it may run -/
+theorem jam_reader {c : Cfg} {p : Bytes} {s : St} (hp : c.Pos) (hi : Inv c p s) (hj : Jammed c s)
+    (hb : s.wblock = 0)
+    (ho : s.pdst = .out → depsOk c s .Ro = true) (he : s.pdst = .err → depsOk c s .Re = true) : CanStep c s := by
+  obtain ⟨hst, hpe, hh⟩ := hj
+  rcases hh with ⟨hd, hf⟩ | ⟨hd, hf⟩
+  · have hnd : s.routDone = false := by
+      cases h : s.routDone with
+      | false => rfl
+      | true => have := (hi.routDone h).1; simp [hst] at this
+    have hne : s.pout ≠ [] := by
+      intro h0; have h1 := hi.nout; have h2 := hp.capOut; simp [h0] at h1; omega
+    exact can_rd_out hp (ho hd) hb hnd hne
+  · have hnd : s.rerrDone = false := by
+      cases h : s.rerrDone with
+      | false => rfl
+      | true => have := (hi.rerrDone h).1; simp [hst] at this
+    have hne : s.perr ≠ [] := by
+      intro h0; have h1 := hi.nerr; have h2 := hp.capErr; simp [h0] at h1; omega
+    exact can_rd_err hp (he hd) hb hnd hne
+
+/-- a starving child is fed (or sees end of file) as soon as the writer may run -/
+theorem starve_writer {c : Cfg} {p : Bytes} {s : St} (hp : c.Pos) (hi : Inv c p s) (hs : Starved s)
+    (hw : depsOk c s .W = true) : CanStep c s := by
+  obtain ⟨hst, hpe, hpin, hcl, -⟩ := hs
+  have hep : s.wepipe = false := by
+    cases h : s.wepipe with
+    | false => rfl
+    | true => have := hi.epipe h; simp [hst] at this
+  have hnin : s.nin = 0 := by rw [hi.nin, hpin]; rfl
+  have := hp.capIn
+  have := hp.wchunk
+  by_cases hb : s.wblock = 0
+  · by_cases hl : s.wleft = []
+    · exact can_wclose hw hb hcl (Or.inl hl)
+    · have h1 : 1 ≤ s.wleft.length := List.length_pos_iff.mpr hl
+      refine can_wr1 hw hep hcl hst ?_ h1 (by omega)
+      simp [offered, hb, List.length_take]; omega
+  · have := hi.wblockLe
+    refine can_wr1 hw hep hcl hst ?_ (by omega) (by omega)
+    simp [offered, hb]; omega
+
+/-- progress: from a reachable state that is not finished some step is possible, unless the child is
+blocked on a pipe and the parent cannot serve that pipe -/
+theorem progress {c : Cfg} {p : Bytes} {s : St} (hp : c.Pos) (hi : Inv c p s) (hw : wfScript s.script = true)
+    (hn : s.completed = false) (hj : Jammed c s → CanStep c s) (hs : Starved s → CanStep c s) : CanStep c s := by
+  cases hst : s.status with
+  | some st => exact progress_dead hp hi (by simp [hst]) hn
+  | none =>
+    by_cases h1 : Jammed c s
+    · exact hj h1
+    · by_cases h2 : Starved s
+      · exact hs h2
+      · exact progress_alive hi hw hst h1 h2
+
+/-! ## finished runs -/
+
+theorem depsOk_free {c : Cfg} {s : St} {a : Act} (h : ∀ x, c.plan.deps a x = false) : depsOk c s a = true := by
+  simp [depsOk, h]
+
+theorem den_init (script : List CAct) (payload : Bytes) (b : Bool) :
+    den (init script payload b) = denS script (init script payload b).wleft := by
+  simp [den, init, pendFor]
+
+/-- what a state in which all four activities are done looks like -/
+theorem completed_results {c : Cfg} {p : Bytes} {s : St} (hi : Inv c p s) (hc : s.completed = true) :
+    ∃ st, s.wt = .done st ∧ s.status = some st ∧ s.pout = [] ∧ s.perr = [] ∧ s.rout = s.cout ∧ s.rerr = s.cerr ∧
+      den s = ⟨s.rout, s.rerr, s.got, s.sunk, st⟩ := by
+  simp only [St.completed, Bool.and_eq_true] at hc
+  obtain ⟨⟨⟨h1, h2⟩, h3⟩, h4⟩ := hc
+  cases hw : s.wt with
+  | done st =>
+    have hst := hi.wtDone st hw
+    have ho := (hi.routDone h2).2
+    have he := (hi.rerrDone h3).2
+    have e1 := hi.outs
+    have e2 := hi.errs
+    rw [ho, List.append_nil] at e1
+    rw [he, List.append_nil] at e2
+    exact ⟨st, rfl, hst, ho, he, e1, e2, by rw [den_dead hst, e1, e2]⟩
+  | idle => simp [hw, WaitPc.isDone] at h4
+  | started => simp [hw, WaitPc.isDone] at h4
+  | ready => simp [hw, WaitPc.isDone] at h4
+  | taken => simp [hw, WaitPc.isDone] at h4
+
+/-- the result of any finished run is the denotation of the child program on the payload -/
+theorem completed_den {c : Cfg} {script : List CAct} {payload : Bytes} {b : Bool} {es : List Ev} {s : St}
+    (hr : run c (init script payload b) es = some s) (hc : s.completed = true) :
+    s.rout = (denS script (init script payload b).wleft).out ∧
+    s.rerr = (denS script (init script payload b).wleft).err ∧
+    s.got = (denS script (init script payload b).wleft).got ∧
+    s.sunk = (denS script (init script payload b).wleft).sunk ∧
+    s.wt = .done (denS script (init script payload b).wleft).st ∧
+    s.status = some (denS script (init script payload b).wleft).st ∧
+    s.rout = s.cout ∧ s.rerr = s.cerr := by
+  have hi := inv_run (inv_init c script payload b) hr
+  obtain ⟨st, h1, h2, -, -, h5, h6, h7⟩ := completed_results hi hc
+  have hd := den_run (inv_init c script payload b) hr
+  rw [den_init, h7] at hd
+  rw [← hd]
+  exact ⟨rfl, rfl, rfl, rfl, h1, h2, h5, h6⟩
+
+/-- everything the child has read is a prefix of what the parent has written, which is a prefix of the payload -/
+theorem got_prefix {c : Cfg} {p : Bytes} {s : St} (hi : Inv c p s) :
+    s.got ++ s.pin = s.wsent ∧ s.wsent ++ s.wleft = p := ⟨hi.gotpin, hi.sent⟩
+
+/-- the writer ended with `BrokenPipe` only if the child did not read everything -/
+theorem epipe_short {c : Cfg} {p : Bytes} {s : St} (hi : Inv c p s) (he : s.wepipe = true) :
+    s.got.length < p.length := by
+  have h1 := congrArg List.length hi.gotpin
+  have h2 := congrArg List.length hi.sent
+  have : 0 < s.wleft.length := List.length_pos_iff.mpr (hi.epipeLeft he)
+  simp only [List.length_append] at h1 h2
+  omega
+
+/-- the writer ended with `Ok` only if everything but at most one pipe full was read by the child -/
+theorem ok_long {c : Cfg} {p : Bytes} {s : St} (hi : Inv c p s) (hl : s.wleft = []) :
+    p.length ≤ s.got.length + c.capIn := by
+  have h1 := congrArg List.length hi.gotpin
+  have h2 := congrArg List.length hi.sent
+  have := hi.capIn
+  simp only [List.length_append, hl, List.length_nil] at h1 h2
+  omega
+
+/-! ## when does every maximal run finish -/
+
+/-- (A) no activity of the parent has to wait for another one to serve the pipes, and no operation
+occupies the runtime thread -/
+theorem stuck_completed_free {c : Cfg} {p : Bytes} {s : St} (hp : c.Pos) (hi : Inv c p s)
+    (hw : wfScript s.script = true) (hnb : c.blocking = false)
+    (hW : ∀ x, c.plan.deps .W x = false) (hRo : ∀ x, c.plan.deps .Ro x = false)
+    (hRe : ∀ x, c.plan.deps .Re x = false) (hs : Stuck c s) : s.completed = true := by
+  cases hn : s.completed with
+  | true => rfl
+  | false =>
+    exfalso
+    refine not_stuck_of_canStep (progress hp hi hw hn ?_ ?_) hs
+    · intro hj
+      exact jam_reader hp hi hj (hi.wblockNB hnb) (fun _ => depsOk_free hRo) (fun _ => depsOk_free hRe)
+    · intro hst
+      exact starve_writer hp hi hst (depsOk_free hW)
+
+/-- as long as the child lives, what it has written plus what it is writing is part of its total output -/
+theorem out_le_den {s : St} (hst : s.status = none) :
+    s.cout.length + (pendFor s .out).length ≤ (den s).out.length ∧
+    s.cerr.length + (pendFor s .err).length ≤ (den s).err.length := by
+  rw [den_alive hst]
+  simp only [List.length_append]
+  omega
+
+/-- a child whose whole output fits into the pipes never blocks in a write -/
+theorem not_jammed_of_fits {c : Cfg} {p : Bytes} {s : St} (hi : Inv c p s)
+    (ho : (den s).out.length ≤ c.capOut) (he : (den s).err.length ≤ c.capErr) : ¬ Jammed c s := by
+  rintro ⟨hst, hpe, hh⟩
+  obtain ⟨b1, b2⟩ := out_le_den hst
+  have hl : 0 < s.pend.length := List.length_pos_iff.mpr hpe
+  rcases hh with ⟨hd, hf⟩ | ⟨hd, hf⟩
+  · have e := congrArg List.length hi.outs
+    have := hi.nout
+    simp only [List.length_append] at e
+    simp only [pendFor, hd, if_true] at b1
+    omega
+  · have e := congrArg List.length hi.errs
+    have := hi.nerr
+    simp only [List.length_append] at e
+    simp only [pendFor, hd, if_true] at b2
+    omega
+
+/-- (B) the child's whole output fits into the pipes: only the writer has to be free -/
+theorem stuck_completed_fits {c : Cfg} {p : Bytes} {s : St} (hp : c.Pos) (hi : Inv c p s)
+    (hw : wfScript s.script = true) (hW : ∀ x, c.plan.deps .W x = false)
+    (ho : (den s).out.length ≤ c.capOut) (he : (den s).err.length ≤ c.capErr)
+    (hs : Stuck c s) : s.completed = true := by
+  cases hn : s.completed with
+  | true => rfl
+  | false =>
+    exfalso
+    refine not_stuck_of_canStep (progress hp hi hw hn ?_ ?_) hs
+    · intro hj
+      exact absurd hj (not_jammed_of_fits hi ho he)
+    · intro hst
+      exact starve_writer hp hi hst (depsOk_free hW)
+
+/-- (C) the whole payload fits into the stdin pipe: a write never has to wait, whatever the driver -/
+theorem stuck_completed_small {c : Cfg} {p : Bytes} {s : St} (hp : c.Pos) (hi : Inv c p s)
+    (hw : wfScript s.script = true) (hpl : p.length ≤ c.capIn)
+    (hW : ∀ x, c.plan.deps .W x = false) (hRo : ∀ x, c.plan.deps .Ro x = false)
+    (hRe : ∀ x, c.plan.deps .Re x = false) (hs : Stuck c s) : s.completed = true := by
+  cases hn : s.completed with
+  | true => rfl
+  | false =>
+    exfalso
+    refine not_stuck_of_canStep (progress hp hi hw hn ?_ ?_) hs
+    · intro hj
+      by_cases hb : s.wblock = 0
+      · exact jam_reader hp hi hj hb (fun _ => depsOk_free hRo) (fun _ => depsOk_free hRe)
+      · obtain ⟨e1, e2, e3⟩ := hi.wblockOpen (by omega)
+        have h1 := congrArg List.length hi.gotpin
+        have h2 := congrArg List.length hi.sent
+        have h3 := hi.wblockLe
+        have h4 := hi.nin
+        simp only [List.length_append] at h1 h2
+        refine can_wr1 e3 e1 e2 hj.1 ?_ (by omega) (by omega)
+        simp [offered, hb]; omega
+    · intro hst
+      exact starve_writer hp hi hst (depsOk_free hW)
+
+/-! ## the echoing child (`cat`, `dd bs=blk`): counting bytes -/
+
+/-- statements that neither read nor write -/
+def quiet : List CAct → Bool
+  | [] => true
+  | .nop :: r => quiet r
+  | .exit _ :: r => quiet r
+  | .kill _ :: r => quiet r
+  | _ => false
+
+/-- the child is `copy none blk out` followed by statements without io -/
+structure CatInv (blk : Nat) (s : St) : Prop where
+  shape : s.status = none → (∃ tail, s.script = .copy none blk .out :: tail ∧ quiet tail = true) ∨ quiet s.script = true
+  acct : s.got = s.cout ++ s.pend
+  pendOut : s.pend ≠ [] → s.pdst = .out
+  pendLen : s.pend.length ≤ blk
+
+theorem catInv_init (blk : Nat) (tail : List CAct) (hq : quiet tail = true) (payload : Bytes) (b : Bool) :
+    CatInv blk (init (.copy none blk .out :: tail) payload b) := by
+  constructor <;> simp [init, hq]
+
+theorem catInv_step {c : Cfg} {blk : Nat} {s s' : St} {e : Ev} (hi : CatInv blk s) (h : step c s e = some s') :
+    CatInv blk s' := by
+  obtain ⟨i1, i2, i3, i4⟩ := hi
+  cases e with
+  | wr k => obtain ⟨-, -, -, -, -, -, -, -, rfl⟩ := stepWr_some h; exact ⟨i1, i2, i3, i4⟩
+  | wrEpipe => obtain ⟨-, -, -, -, -, rfl⟩ := stepWrEpipe_some h; exact ⟨i1, i2, i3, i4⟩
+  | wclose => obtain ⟨-, -, -, -, rfl⟩ := stepWclose_some h; exact ⟨i1, i2, i3, i4⟩
+  | rd d k =>
+    cases d with
+    | out => obtain ⟨-, -, -, -, -, -, rfl⟩ := stepRd_out_some h; exact ⟨i1, i2, i3, i4⟩
+    | err => obtain ⟨-, -, -, -, -, -, rfl⟩ := stepRd_err_some h; exact ⟨i1, i2, i3, i4⟩
+    | null => simp [step, stepRd_null] at h
+  | rdEof d =>
+    cases d with
+    | out => obtain ⟨-, -, -, -, -, rfl⟩ := stepRdEof_out_some h; exact ⟨i1, i2, i3, i4⟩
+    | err => obtain ⟨-, -, -, -, -, rfl⟩ := stepRdEof_err_some h; exact ⟨i1, i2, i3, i4⟩
+    | null => simp [step, stepRdEof_null] at h
+  | wtStart => obtain ⟨-, -, -, rfl⟩ := stepWtStart_some h; exact ⟨i1, i2, i3, i4⟩
+  | wtReady => obtain ⟨-, -, -, -, -, rfl⟩ := stepWtReady_some h; exact ⟨i1, i2, i3, i4⟩
+  | wtTake => obtain ⟨-, -, -, -, -, rfl⟩ := stepWtTake_some h; exact ⟨i1, i2, i3, i4⟩
+  | wtDone => obtain ⟨-, -, -, st, -, rfl⟩ := stepWtDone_some h; exact ⟨i1, i2, i3, i4⟩
+  | cRead k =>
+    obtain ⟨g1, g2, lim, blk', dst, r, hs, g3, g4, g5, g6, rfl⟩ := stepCRead_some (c := c) h
+    rcases i1 g1 with ⟨tail, ht, hq⟩ | hq
+    · rw [hs] at ht
+      simp only [List.cons.injEq, CAct.copy.injEq] at ht
+      obtain ⟨⟨rfl, rfl, rfl⟩, rfl⟩ := ht
+      refine ⟨?_, ?_, ?_, ?_⟩
+      · intro _; exact Or.inl ⟨r, by simp [limSub], hq⟩
+      · simp [i2, g2]
+      · intro _; rfl
+      · simp [List.length_take]; omega
+    · rw [hs] at hq; simp [quiet] at hq
+  | cEof =>
+    obtain ⟨g1, g2, g3, g4, lim, blk', dst, r, hs, g5, rfl⟩ := stepCEof_some (c := c) h
+    refine ⟨?_, i2, i3, i4⟩
+    intro _
+    rcases i1 g1 with ⟨tail, ht, hq⟩ | hq
+    · rw [hs] at ht
+      simp only [List.cons.injEq] at ht
+      exact Or.inr (ht.2 ▸ hq)
+    · rw [hs] at hq; simp [quiet] at hq
+  | cWrite k =>
+    obtain ⟨g1, g2, g3, hh⟩ := stepCWrite_some h
+    have hne : s.pend ≠ [] := by intro h0; simp [h0] at g3; omega
+    have hd := i3 hne
+    rcases hh with ⟨g4, g5, rfl⟩ | ⟨g4, g5, rfl⟩
+    · refine ⟨i1, ?_, fun _ => hd, ?_⟩
+      · simp [i2, List.append_assoc]
+      · simp [List.length_drop]; omega
+    · rw [hd] at g4; cases g4
+  | cStep =>
+    obtain ⟨g1, g2, hc⟩ := stepCStep_some (c := c) h
+    have hsh := i1 g1
+    cases hc with
+    | fallOff hs h => subst h; exact ⟨by simp, i2, i3, i4⟩
+    | copyDone blk' dst r hs h =>
+      subst h
+      rcases hsh with ⟨tail, ht, hq⟩ | hq
+      · rw [hs] at ht; simp at ht
+      · rw [hs] at hq; simp [quiet] at hq
+    | emitNull bs r hs h =>
+      subst h
+      rcases hsh with ⟨tail, ht, hq⟩ | hq
+      · rw [hs] at ht; simp at ht
+      · rw [hs] at hq; simp [quiet] at hq
+    | emit d bs r hs hd h =>
+      subst h
+      rcases hsh with ⟨tail, ht, hq⟩ | hq
+      · rw [hs] at ht; simp at ht
+      · rw [hs] at hq; simp [quiet] at hq
+    | nop r hs h =>
+      subst h
+      rcases hsh with ⟨tail, ht, hq⟩ | hq
+      · rw [hs] at ht; simp at ht
+      · rw [hs] at hq; simp only [quiet] at hq
+        exact ⟨fun _ => Or.inr hq, i2, i3, i4⟩
+    | exit code r hs h => subst h; exact ⟨by simp, i2, i3, i4⟩
+    | kill sg r hs h => subst h; exact ⟨by simp, i2, i3, i4⟩
+
+theorem catInv_run {c : Cfg} {blk : Nat} {s s' : St} {es : List Ev} (hi : CatInv blk s) (h : run c s es = some s') :
+    CatInv blk s' := by
+  induction es generalizing s with
+  | nil => simp [run] at h; subst h; exact hi
+  | cons e es ih =>
+    simp only [run_cons] at h
+    cases hs : step c s e with
+    | none => simp [hs] at h
+    | some s2 => simp only [hs] at h; exact ih (catInv_step hi hs) h
+
+/-- every byte of the payload is in exactly one place -/
+theorem cat_count {c : Cfg} {p : Bytes} {blk : Nat} {s : St} (hi : Inv c p s) (hc : CatInv blk s) :
+    p.length = s.wleft.length + s.pin.length + s.pend.length + s.pout.length + s.rout.length := by
+  have h1 := congrArg List.length hi.gotpin
+  have h2 := congrArg List.length hi.sent
+  have h3 := congrArg List.length hi.outs
+  have h4 := congrArg List.length hc.acct
+  simp only [List.length_append] at h1 h2 h3 h4
+  omega
+
+theorem depsOk_Ro_of_closed {c : Cfg} {s : St} (h : ∀ x, c.plan.deps .Ro x = true → x = .W) (hc : s.wclosed = true) :
+    depsOk c s .Ro = true := by
+  have h1 : c.plan.deps .Ro .Ro = false := by
+    cases hh : c.plan.deps .Ro .Ro with
+    | false => rfl
+    | true => cases h _ hh
+  have h2 : c.plan.deps .Ro .Re = false := by
+    cases hh : c.plan.deps .Ro .Re with
+    | false => rfl
+    | true => cases h _ hh
+  have h3 : c.plan.deps .Ro .Wt = false := by
+    cases hh : c.plan.deps .Ro .Wt with
+    | false => rfl
+    | true => cases h _ hh
+  simp [depsOk, St.done, h1, h2, h3, hc]
+
+/-- (D) echoing child, everything fits into the two pipes: the reader may even wait for the writer
+to finish (plan `seq`), and a write may occupy the runtime thread (polling driver) -/
+theorem stuck_completed_cat {c : Cfg} {p : Bytes} {blk : Nat} {s : St} (hp : c.Pos) (hi : Inv c p s)
+    (hc : CatInv blk s) (hw : wfScript s.script = true) (hpl : p.length ≤ c.capIn + c.capOut)
+    (hW : ∀ x, c.plan.deps .W x = false) (hRo : ∀ x, c.plan.deps .Ro x = true → x = .W)
+    (hs : Stuck c s) : s.completed = true := by
+  cases hn : s.completed with
+  | true => rfl
+  | false =>
+    exfalso
+    refine not_stuck_of_canStep (progress hp hi hw hn ?_ ?_) hs
+    · intro hj
+      have hst := hj.1
+      have hpe := hj.2.1
+      have hd := hc.pendOut hpe
+      have hfull : s.nout = c.capOut := by
+        rcases hj.2.2 with ⟨-, hf⟩ | ⟨he, -⟩
+        · exact hf
+        · rw [hd] at he; cases he
+      cases hcl : s.wclosed with
+      | true =>
+        have hb : s.wblock = 0 := by
+          cases hb : s.wblock with
+          | zero => rfl
+          | succ n => have := (hi.wblockOpen (by omega)).2.1; simp [hcl] at this
+        exact jam_reader hp hi hj hb (fun _ => depsOk_Ro_of_closed hRo hcl) (fun he => by rw [hd] at he; cases he)
+      | false =>
+        have hep : s.wepipe = false := by
+          cases h : s.wepipe with
+          | false => rfl
+          | true => have := hi.epipe h; simp [hst] at this
+        by_cases hl : s.wleft = []
+        · have hb : s.wblock = 0 := by have := hi.wblockLe; simp [hl] at this; exact this
+          exact can_wclose (depsOk_free hW) hb hcl (Or.inl hl)
+        · have h1 : 1 ≤ s.wleft.length := List.length_pos_iff.mpr hl
+          have h2 : 1 ≤ s.pend.length := List.length_pos_iff.mpr hpe
+          have hcount := cat_count hi hc
+          have := hi.nout
+          have := hi.nin
+          have := hp.wchunk
+          refine can_wr1 (depsOk_free hW) hep hcl hst ?_ h1 (by omega)
+          unfold offered
+          split
+          · simp [List.length_take]; omega
+          · omega
+    · intro hst
+      exact starve_writer hp hi hst (depsOk_free hW)
+
+/-! ### orders that cannot work -/
+
+/-- the writer of an echoing child can never finish: the reader has not started (plan `seq`), or the
+runtime thread sits in one `write(2)` of the whole payload (polling driver) -/
+structure WriterStuck (blk : Nat) (s : St) : Prop where
+  open_ : s.wclosed = false
+  noRead : s.rout = []
+  alive : s.status = none
+  shape : ∃ tail, s.script = .copy none blk .out :: tail
+
+theorem writerStuck_counts {c : Cfg} {p : Bytes} {blk : Nat} {s : St} (hi : Inv c p s) (hc : CatInv blk s)
+    (hk : WriterStuck blk s) : p.length ≤ s.wleft.length + c.capIn + blk + c.capOut := by
+  have h1 := cat_count hi hc
+  have := hi.capIn
+  have := hi.capOut
+  have := hc.pendLen
+  simp only [hk.noRead, List.length_nil] at h1
+  omega
+
+/-- more than the two pipes and the child's buffer hold, and no `read` of stdout can complete now:
+the writer stays stuck -/
+theorem writerStuck_step {c : Cfg} {p : Bytes} {blk : Nat} {s s' : St} {e : Ev} (hi : Inv c p s)
+    (hc : CatInv blk s) (hk : WriterStuck blk s) (hbig : c.capIn + blk + c.capOut < p.length)
+    (hnoread : ∀ k, stepRd c s .out k = none) (h : step c s e = some s') : WriterStuck blk s' := by
+  obtain ⟨k1, k2, k3, tail, k4⟩ := hk
+  have hcnt := writerStuck_counts hi hc ⟨k1, k2, k3, tail, k4⟩
+  have hne : s.wleft ≠ [] := by intro h0; simp [h0] at hcnt; omega
+  cases e with
+  | wr k => obtain ⟨-, -, -, -, -, -, -, -, rfl⟩ := stepWr_some h; exact ⟨k1, k2, k3, tail, k4⟩
+  | wrEpipe => obtain ⟨-, -, -, -, g5, rfl⟩ := stepWrEpipe_some h; simp [k3] at g5
+  | wclose =>
+    obtain ⟨-, -, -, g4, rfl⟩ := stepWclose_some h
+    rcases g4 with g4 | g4
+    · exact absurd g4 hne
+    · have := hi.epipe g4; simp [k3] at this
+  | rd d k =>
+    cases d with
+    | out =>
+      simp [step, hnoread k] at h
+    | err => obtain ⟨-, -, -, -, -, -, rfl⟩ := stepRd_err_some h; exact ⟨k1, k2, k3, tail, k4⟩
+    | null => simp [step, stepRd_null] at h
+  | rdEof d =>
+    cases d with
+    | out => obtain ⟨-, -, -, -, g5, rfl⟩ := stepRdEof_out_some h; simp [k3] at g5
+    | err => obtain ⟨-, -, -, -, g5, rfl⟩ := stepRdEof_err_some h; simp [k3] at g5
+    | null => simp [step, stepRdEof_null] at h
+  | wtStart => obtain ⟨-, -, -, rfl⟩ := stepWtStart_some h; exact ⟨k1, k2, k3, tail, k4⟩
+  | wtReady => obtain ⟨-, -, -, -, g5, rfl⟩ := stepWtReady_some h; simp [k3] at g5
+  | wtTake => obtain ⟨-, -, -, -, -, rfl⟩ := stepWtTake_some h; exact ⟨k1, k2, k3, tail, k4⟩
+  | wtDone => obtain ⟨-, -, -, st, g4, rfl⟩ := stepWtDone_some h; simp [k3] at g4
+  | cRead k =>
+    obtain ⟨g1, g2, lim, blk', dst, r, hs, g3, g4, g5, g6, rfl⟩ := stepCRead_some (c := c) h
+    rw [hs] at k4
+    simp only [List.cons.injEq, CAct.copy.injEq] at k4
+    obtain ⟨⟨rfl, rfl, rfl⟩, rfl⟩ := k4
+    exact ⟨k1, k2, k3, r, by simp [limSub]⟩
+  | cEof => obtain ⟨-, -, -, g4, -⟩ := stepCEof_some (c := c) h; simp [k1] at g4
+  | cWrite k =>
+    obtain ⟨-, -, -, hh⟩ := stepCWrite_some h
+    rcases hh with ⟨-, -, rfl⟩ | ⟨-, -, rfl⟩ <;> exact ⟨k1, k2, k3, tail, k4⟩
+  | cStep =>
+    obtain ⟨g1, g2, hcs⟩ := stepCStep_some (c := c) h
+    cases hcs with
+    | fallOff hs h => rw [hs] at k4; cases k4
+    | copyDone blk' dst r hs h => rw [hs] at k4; simp at k4
+    | emitNull bs r hs h => rw [hs] at k4; simp at k4
+    | emit d bs r hs hd h => rw [hs] at k4; simp at k4
+    | nop r hs h => rw [hs] at k4; simp at k4
+    | exit code r hs h => rw [hs] at k4; simp at k4
+    | kill sg r hs h => rw [hs] at k4; simp at k4
+
+
+/-- plan `seq`: the reader waits for the writer -/
+theorem noread_seq {c : Cfg} {s : St} (hseq : c.plan.deps .Ro .W = true) (hcl : s.wclosed = false) (k : Nat) :
+    stepRd c s .out k = none := by
+  simp [stepRd, depsOk, St.done, hseq, hcl]
+
+theorem seq_never_run {c : Cfg} {p : Bytes} {blk : Nat} {s s' : St} {es : List Ev} (hi : Inv c p s)
+    (hc : CatInv blk s) (hk : WriterStuck blk s) (hbig : c.capIn + blk + c.capOut < p.length)
+    (hseq : c.plan.deps .Ro .W = true) (h : run c s es = some s') : WriterStuck blk s' := by
+  induction es generalizing s with
+  | nil => simp [run] at h; subst h; exact hk
+  | cons e es ih =>
+    simp only [run_cons] at h
+    cases hs : step c s e with
+    | none => simp [hs] at h
+    | some s2 =>
+      simp only [hs] at h
+      exact ih (inv_step hi hs) (catInv_step hc hs)
+        (writerStuck_step hi hc hk hbig (noread_seq hseq hk.open_) hs) h
+
+/-- polling driver, the whole payload offered in one `write`: either nothing was written yet, or the
+runtime thread is inside that `write(2)` until the last byte is in the pipe -/
+def OneWrite (s : St) : Prop :=
+  (s.wsent = [] ∧ s.wblock = 0) ∨ (s.wblock = s.wleft.length ∧ s.wleft ≠ [])
+
+theorem noread_oneWrite {c : Cfg} {p : Bytes} {blk : Nat} {s : St} (hi : Inv c p s) (hc : CatInv blk s)
+    (ho : OneWrite s) (k : Nat) : stepRd c s .out k = none := by
+  rcases ho with ⟨h1, -⟩ | ⟨h1, h2⟩
+  · have e1 := hi.gotpin
+    rw [h1] at e1
+    have hg : s.got = [] := (List.append_eq_nil_iff.mp e1).1
+    have e2 := hc.acct
+    rw [hg] at e2
+    have hco : s.cout = [] := (List.append_eq_nil_iff.mp e2.symm).1
+    have e3 := hi.outs
+    rw [hco] at e3
+    have hpo : s.pout = [] := (List.append_eq_nil_iff.mp e3).2
+    simp only [stepRd]
+    rw [if_neg]
+    simp [hpo]; omega
+  · have : 0 < s.wleft.length := List.length_pos_iff.mpr h2
+    simp only [stepRd]
+    rw [if_neg]
+    intro hh; omega
+
+theorem oneWrite_step {c : Cfg} {p : Bytes} {blk : Nat} {s s' : St} {e : Ev} (hi : Inv c p s) (hi' : Inv c p s')
+    (hc' : CatInv blk s') (hk : WriterStuck blk s) (hk' : WriterStuck blk s')
+    (hbig : c.capIn + blk + c.capOut < p.length) (hb : c.blocking = true) (hch : p.length ≤ c.wchunk)
+    (ho : OneWrite s) (h : step c s e = some s') : OneWrite s' := by
+  have hcnt := writerStuck_counts hi' hc' hk'
+  have hne' : s'.wleft ≠ [] := by intro h0; simp [h0] at hcnt; omega
+  cases e with
+  | wr k =>
+    obtain ⟨-, -, -, -, g5, g6, g7, -, rfl⟩ := stepWr_some h
+    right
+    refine ⟨?_, hne'⟩
+    simp only [hb, if_true, List.length_drop]
+    rcases ho with ⟨h1, h2⟩ | ⟨h1, h2⟩
+    · have e1 := hi.sent
+      rw [h1, List.nil_append] at e1
+      simp [offered, h2, List.length_take, e1]
+      omega
+    · have : 0 < s.wleft.length := List.length_pos_iff.mpr h2
+      have hb0 : ¬ s.wleft.length = 0 := by omega
+      simp only [offered, h1, if_neg hb0]
+  | wrEpipe => obtain ⟨-, -, -, -, g5, rfl⟩ := stepWrEpipe_some h; simp [hk.alive] at g5
+  | wclose => obtain ⟨-, -, -, -, rfl⟩ := stepWclose_some h; exact ho
+  | rd d k =>
+    cases d with
+    | out => obtain ⟨-, -, -, -, -, -, rfl⟩ := stepRd_out_some h; exact ho
+    | err => obtain ⟨-, -, -, -, -, -, rfl⟩ := stepRd_err_some h; exact ho
+    | null => simp [step, stepRd_null] at h
+  | rdEof d =>
+    cases d with
+    | out => obtain ⟨-, -, -, -, -, rfl⟩ := stepRdEof_out_some h; exact ho
+    | err => obtain ⟨-, -, -, -, -, rfl⟩ := stepRdEof_err_some h; exact ho
+    | null => simp [step, stepRdEof_null] at h
+  | wtStart => obtain ⟨-, -, -, rfl⟩ := stepWtStart_some h; exact ho
+  | wtReady => obtain ⟨-, -, -, -, -, rfl⟩ := stepWtReady_some h; exact ho
+  | wtTake => obtain ⟨-, -, -, -, -, rfl⟩ := stepWtTake_some h; exact ho
+  | wtDone => obtain ⟨-, -, -, st, -, rfl⟩ := stepWtDone_some h; exact ho
+  | cRead k =>
+    obtain ⟨-, -, lim, blk', dst, r, -, -, -, -, -, rfl⟩ := stepCRead_some (c := c) h
+    cases dst <;> exact ho
+  | cEof => obtain ⟨-, -, -, -, lim, blk', dst, r, -, -, rfl⟩ := stepCEof_some (c := c) h; exact ho
+  | cWrite k =>
+    obtain ⟨-, -, -, hh⟩ := stepCWrite_some h
+    rcases hh with ⟨-, -, rfl⟩ | ⟨-, -, rfl⟩ <;> exact ho
+  | cStep =>
+    obtain ⟨-, -, hcs⟩ := stepCStep_some (c := c) h
+    cases hcs with
+    | fallOff hs h => subst h; exact ho
+    | copyDone blk' dst r hs h => subst h; exact ho
+    | emitNull bs r hs h => subst h; exact ho
+    | emit d bs r hs hd h => subst h; exact ho
+    | nop r hs h => subst h; exact ho
+    | exit code r hs h => subst h; exact ho
+    | kill sg r hs h => subst h; exact ho
+
+theorem oneWrite_never_run {c : Cfg} {p : Bytes} {blk : Nat} {s s' : St} {es : List Ev} (hi : Inv c p s)
+    (hc : CatInv blk s) (hk : WriterStuck blk s) (ho : OneWrite s)
+    (hbig : c.capIn + blk + c.capOut < p.length) (hb : c.blocking = true) (hch : p.length ≤ c.wchunk)
+    (h : run c s es = some s') : WriterStuck blk s' := by
+  induction es generalizing s with
+  | nil => simp [run] at h; subst h; exact hk
+  | cons e es ih =>
+    simp only [run_cons] at h
+    cases hs : step c s e with
+    | none => simp [hs] at h
+    | some s2 =>
+      simp only [hs] at h
+      have hi2 := inv_step hi hs
+      have hc2 := catInv_step hc hs
+      have hk2 := writerStuck_step hi hc hk hbig (noread_oneWrite hi hc ho) hs
+      exact ih hi2 hc2 hk2 (oneWrite_step hi hi2 hc2 hk hk2 hbig hb hch ho hs) h
+
+theorem writerStuck_not_completed {blk : Nat} {s : St} (hk : WriterStuck blk s) : s.completed = false := by
+  simp [St.completed, hk.open_]
+
+/-! ### `wait` with `stdin` still inside the `Child` (plan `held`) -/
+
+/-- the child waits for end of file, the parent closes stdin only after the wait -/
+structure HeldStuck (s : St) : Prop where
+  open_ : s.wclosed = false
+  alive : s.status = none
+  notWaited : s.wt.isDone = false
+  shape : ∃ blk dst tail, s.script = .copy none blk dst :: tail
+
+theorem heldStuck_step {c : Cfg} {s s' : St} {e : Ev} (hk : HeldStuck s) (hheld : c.plan.deps .W .Wt = true)
+    (h : step c s e = some s') : HeldStuck s' := by
+  obtain ⟨k1, k2, k3, blk, dst, tail, k4⟩ := hk
+  have hW : depsOk c s .W = false := by simp [depsOk, St.done, hheld, k3]
+  cases e with
+  | wr k => obtain ⟨g1, -⟩ := stepWr_some h; simp [hW] at g1
+  | wrEpipe => obtain ⟨g1, -⟩ := stepWrEpipe_some h; simp [hW] at g1
+  | wclose => obtain ⟨g1, -⟩ := stepWclose_some h; simp [hW] at g1
+  | rd d k =>
+    cases d with
+    | out => obtain ⟨-, -, -, -, -, -, rfl⟩ := stepRd_out_some h; exact ⟨k1, k2, k3, blk, dst, tail, k4⟩
+    | err => obtain ⟨-, -, -, -, -, -, rfl⟩ := stepRd_err_some h; exact ⟨k1, k2, k3, blk, dst, tail, k4⟩
+    | null => simp [step, stepRd_null] at h
+  | rdEof d =>
+    cases d with
+    | out => obtain ⟨-, -, -, -, g5, rfl⟩ := stepRdEof_out_some h; simp [k2] at g5
+    | err => obtain ⟨-, -, -, -, g5, rfl⟩ := stepRdEof_err_some h; simp [k2] at g5
+    | null => simp [step, stepRdEof_null] at h
+  | wtStart =>
+    obtain ⟨-, -, -, rfl⟩ := stepWtStart_some h
+    exact ⟨k1, k2, by simp [WaitPc.isDone], blk, dst, tail, k4⟩
+  | wtReady => obtain ⟨-, -, -, -, g5, rfl⟩ := stepWtReady_some h; simp [k2] at g5
+  | wtTake =>
+    obtain ⟨-, -, -, -, -, rfl⟩ := stepWtTake_some h
+    exact ⟨k1, k2, by simp [WaitPc.isDone], blk, dst, tail, k4⟩
+  | wtDone => obtain ⟨-, -, -, st, g4, rfl⟩ := stepWtDone_some h; simp [k2] at g4
+  | cRead k =>
+    obtain ⟨g1, g2, lim, blk', dst', r, hs, g3, g4, g5, g6, rfl⟩ := stepCRead_some (c := c) h
+    rw [hs] at k4
+    simp only [List.cons.injEq, CAct.copy.injEq] at k4
+    obtain ⟨⟨rfl, rfl, rfl⟩, rfl⟩ := k4
+    cases dst'
+    · exact ⟨k1, k2, k3, blk', .out, r, by simp [limSub]⟩
+    · exact ⟨k1, k2, k3, blk', .err, r, by simp [limSub]⟩
+    · exact ⟨k1, k2, k3, blk', .null, r, by simp [limSub]⟩
+  | cEof => obtain ⟨-, -, -, g4, -⟩ := stepCEof_some (c := c) h; simp [k1] at g4
+  | cWrite k =>
+    obtain ⟨-, -, -, hh⟩ := stepCWrite_some h
+    rcases hh with ⟨-, -, rfl⟩ | ⟨-, -, rfl⟩ <;> exact ⟨k1, k2, k3, blk, dst, tail, k4⟩
+  | cStep =>
+    obtain ⟨g1, g2, hcs⟩ := stepCStep_some (c := c) h
+    cases hcs with
+    | fallOff hs h => rw [hs] at k4; cases k4
+    | copyDone blk' dst' r hs h => rw [hs] at k4; simp at k4
+    | emitNull bs r hs h => rw [hs] at k4; simp at k4
+    | emit d bs r hs hd h => rw [hs] at k4; simp at k4
+    | nop r hs h => rw [hs] at k4; simp at k4
+    | exit code r hs h => rw [hs] at k4; simp at k4
+    | kill sg r hs h => rw [hs] at k4; simp at k4
+
+theorem heldStuck_run {c : Cfg} {s s' : St} {es : List Ev} (hk : HeldStuck s) (hheld : c.plan.deps .W .Wt = true)
+    (h : run c s es = some s') : HeldStuck s' := by
+  induction es generalizing s with
+  | nil => simp [run] at h; subst h; exact hk
+  | cons e es ih =>
+    simp only [run_cons] at h
+    cases hs : step c s e with
+    | none => simp [hs] at h
+    | some s2 => simp only [hs] at h; exact ih (heldStuck_step hk hheld hs) h
+
+/-! ## the canonical scheduler -/
+
+theorem next_some {c : Cfg} {s s' : St} (h : next c s = some s') : ∃ e, step c s e = some s' := by
+  unfold next at h
+  obtain ⟨e, -, he⟩ := List.exists_of_findSome?_eq_some h
+  exact ⟨e, he⟩
+
+theorem next_none {c : Cfg} {s : St} (h : next c s = none) : ∀ e ∈ candidates c s, step c s e = none := by
+  unfold next at h
+  exact List.findSome?_eq_none_iff.mp h
+
+theorem isSome_of_eq_some {α : Type} {o : Option α} {a : α} (h : o = some a) : o.isSome = true := by
+  rw [h]; rfl
+
+/-- if any event can fire, the candidate of the same kind (with the largest transfer) can -/
+theorem candidate_enabled {c : Cfg} {p : Bytes} {s s' : St} {e : Ev} (hi : Inv c p s) (h : step c s e = some s') :
+    ∃ e' ∈ candidates c s, (step c s e').isSome = true := by
+  cases e with
+  | wr k =>
+    obtain ⟨g1, g2, g3, g4, g5, g6, g7, g8, -⟩ := stepWr_some h
+    refine ⟨.wr (min (offered c s) (c.capIn - s.nin)), by simp [candidates], ?_⟩
+    have := offered_le (c := c) hi.wblockLe
+    simp [step, stepWr, g1, g2, g3, g4]
+    omega
+  | wrEpipe => exact ⟨.wrEpipe, by simp [candidates], isSome_of_eq_some h⟩
+  | wclose => exact ⟨.wclose, by simp [candidates], isSome_of_eq_some h⟩
+  | rd d k =>
+    cases d with
+    | out =>
+      obtain ⟨g1, g2, g3, g4, g5, g6, -⟩ := stepRd_out_some h
+      refine ⟨.rd .out (min c.rchunk s.nout), by simp [candidates], ?_⟩
+      have := hi.nout
+      simp [step, stepRd, g1, g2, g3]
+      omega
+    | err =>
+      obtain ⟨g1, g2, g3, g4, g5, g6, -⟩ := stepRd_err_some h
+      refine ⟨.rd .err (min c.rchunk s.nerr), by simp [candidates], ?_⟩
+      have := hi.nerr
+      simp [step, stepRd, g1, g2, g3]
+      omega
+    | null => simp [step, stepRd_null] at h
+  | rdEof d =>
+    cases d with
+    | out => exact ⟨.rdEof .out, by simp [candidates], isSome_of_eq_some h⟩
+    | err => exact ⟨.rdEof .err, by simp [candidates], isSome_of_eq_some h⟩
+    | null => simp [step, stepRdEof_null] at h
+  | wtStart => exact ⟨.wtStart, by simp [candidates], isSome_of_eq_some h⟩
+  | wtReady => exact ⟨.wtReady, by simp [candidates], isSome_of_eq_some h⟩
+  | wtTake => exact ⟨.wtTake, by simp [candidates], isSome_of_eq_some h⟩
+  | wtDone => exact ⟨.wtDone, by simp [candidates], isSome_of_eq_some h⟩
+  | cRead k =>
+    obtain ⟨g1, g2, lim, blk, dst, r, hs, g3, g4, g5, g6, -⟩ := stepCRead_some (c := c) h
+    have hn := hi.nin
+    cases lim with
+    | none =>
+      refine ⟨.cRead (min (min blk s.nin) s.nin), by simp [candidates, hs], ?_⟩
+      cases dst <;> simp [step, stepCRead, g1, g2, hs, limOk] <;> omega
+    | some n =>
+      simp [limOk] at g6
+      refine ⟨.cRead (min (min blk n) s.nin), by simp [candidates, hs], ?_⟩
+      cases dst <;> simp [step, stepCRead, g1, g2, hs, limOk] <;> omega
+  | cEof => exact ⟨.cEof, by simp [candidates], isSome_of_eq_some h⟩
+  | cWrite k =>
+    obtain ⟨g1, g2, g3, hh⟩ := stepCWrite_some h
+    rcases hh with ⟨g4, g5, -⟩ | ⟨g4, g5, -⟩
+    · refine ⟨.cWrite (s.pend.take (c.capOut - s.nout)).length, by simp [candidates, g4], ?_⟩
+      simp [step, stepCWrite, g1, g4, List.length_take]
+      rw [if_pos (by omega), if_pos (by omega)]; rfl
+    · refine ⟨.cWrite (s.pend.take (c.capErr - s.nerr)).length, by simp [candidates, g4], ?_⟩
+      simp [step, stepCWrite, g1, g4, List.length_take]
+      rw [if_pos (by omega), if_pos (by omega)]; rfl
+  | cStep => exact ⟨.cStep, by simp [candidates], isSome_of_eq_some h⟩
+
+theorem next_none_stuck {c : Cfg} {p : Bytes} {s : St} (hi : Inv c p s) (h : next c s = none) : Stuck c s := by
+  intro e
+  cases hs : step c s e with
+  | none => rfl
+  | some s' =>
+    obtain ⟨e', hm, he'⟩ := candidate_enabled hi hs
+    rw [next_none h e' hm] at he'
+    cases he'
+
+theorem runCanon_run (c : Cfg) (n : Nat) (s : St) : ∃ es, run c s es = some (runCanon c n s) := by
+  induction n generalizing s with
+  | zero => exact ⟨[], rfl⟩
+  | succ n ih =>
+    simp only [runCanon]
+    cases hn : next c s with
+    | none => exact ⟨[], rfl⟩
+    | some s' =>
+      obtain ⟨e, he⟩ := next_some hn
+      obtain ⟨es, hes⟩ := ih s'
+      exact ⟨e :: es, by simp [run_cons, he, hes]⟩
+
+theorem stuck_of_mu_zero {c : Cfg} {s : St} (h : mu s = 0) : Stuck c s := by
+  intro e
+  cases hs : step c s e with
+  | none => rfl
+  | some s' => have := mu_decrease hs; omega
+
+/-- with `mu s` units of fuel the canonical run is maximal -/
+theorem runCanon_stuck {c : Cfg} {p : Bytes} {n : Nat} {s : St} (hi : Inv c p s) (hn : mu s ≤ n) :
+    Stuck c (runCanon c n s) := by
+  induction n generalizing s with
+  | zero => simp only [runCanon]; exact stuck_of_mu_zero (by omega)
+  | succ n ih =>
+    simp only [runCanon]
+    cases hx : next c s with
+    | none => exact next_none_stuck hi hx
+    | some s' =>
+      obtain ⟨e, he⟩ := next_some hx
+      have := mu_decrease he
+      exact ih (inv_step hi he) (by omega)
+
+theorem runCanon_of_stuck {c : Cfg} {s : St} (hs : Stuck c s) (n : Nat) :
+    runCanon c n s = s := by
+  cases n with
+  | zero => rfl
+  | succ n =>
+    simp only [runCanon]
+    cases hx : next c s with
+    | none => rfl
+    | some s' =>
+      obtain ⟨e, he⟩ := next_some hx
+      rw [hs e] at he; cases he
+
+/-- more fuel than `mu s` changes nothing -/
+theorem runCanon_fuel {c : Cfg} {p : Bytes} {n : Nat} {s : St} (hi : Inv c p s) (hn : mu s ≤ n) (k : Nat) :
+    runCanon c (n + k) s = runCanon c n s := by
+  induction n generalizing s with
+  | zero =>
+    have hs : Stuck c s := stuck_of_mu_zero (by omega)
+    rw [runCanon_of_stuck hs, runCanon_of_stuck hs]
+  | succ n ih =>
+    rw [show n + 1 + k = (n + k) + 1 by omega]
+    simp only [runCanon]
+    cases hx : next c s with
+    | none => rfl
+    | some s' =>
+      obtain ⟨e, he⟩ := next_some hx
+      have := mu_decrease he
+      exact ih (inv_step hi he) (by omega)
+
+/-! ## `wait` -/
+
+theorem step_wt {c : Cfg} {s s' : St} {e : Ev} (h : step c s e = some s') :
+    (e = .wtDone ∧ s.wt.isDone = false ∧ s'.wt.isDone = true) ∨ (e ≠ .wtDone ∧ s'.wt.isDone = s.wt.isDone) := by
+  cases e with
+  | wr k => obtain ⟨-, -, -, -, -, -, -, -, rfl⟩ := stepWr_some h; exact Or.inr ⟨by simp, rfl⟩
+  | wrEpipe => obtain ⟨-, -, -, -, -, rfl⟩ := stepWrEpipe_some h; exact Or.inr ⟨by simp, rfl⟩
+  | wclose => obtain ⟨-, -, -, -, rfl⟩ := stepWclose_some h; exact Or.inr ⟨by simp, rfl⟩
+  | rd d k =>
+    cases d with
+    | out => obtain ⟨-, -, -, -, -, -, rfl⟩ := stepRd_out_some h; exact Or.inr ⟨by simp, rfl⟩
+    | err => obtain ⟨-, -, -, -, -, -, rfl⟩ := stepRd_err_some h; exact Or.inr ⟨by simp, rfl⟩
+    | null => simp [step, stepRd_null] at h
+  | rdEof d =>
+    cases d with
+    | out => obtain ⟨-, -, -, -, -, rfl⟩ := stepRdEof_out_some h; exact Or.inr ⟨by simp, rfl⟩
+    | err => obtain ⟨-, -, -, -, -, rfl⟩ := stepRdEof_err_some h; exact Or.inr ⟨by simp, rfl⟩
+    | null => simp [step, stepRdEof_null] at h
+  | wtStart => obtain ⟨-, -, g3, rfl⟩ := stepWtStart_some h; exact Or.inr ⟨by simp, by simp [g3, WaitPc.isDone]⟩
+  | wtReady => obtain ⟨-, -, -, g4, -, rfl⟩ := stepWtReady_some h; exact Or.inr ⟨by simp, by simp [g4, WaitPc.isDone]⟩
+  | wtTake => obtain ⟨-, -, -, g4, -, rfl⟩ := stepWtTake_some h; exact Or.inr ⟨by simp, by simp [g4, WaitPc.isDone]⟩
+  | wtDone =>
+    obtain ⟨-, -, g3, st, -, rfl⟩ := stepWtDone_some h
+    refine Or.inl ⟨rfl, ?_, by simp [WaitPc.isDone]⟩
+    rw [g3]; cases hp : c.pidfd <;> simp [Cfg.lastPc, hp, WaitPc.isDone]
+  | cRead k =>
+    obtain ⟨-, -, lim, blk, dst, r, -, -, -, -, -, rfl⟩ := stepCRead_some (c := c) h
+    cases dst <;> exact Or.inr ⟨by simp, rfl⟩
+  | cEof => obtain ⟨-, -, -, -, lim, blk, dst, r, -, -, rfl⟩ := stepCEof_some (c := c) h; exact Or.inr ⟨by simp, rfl⟩
+  | cWrite k =>
+    obtain ⟨-, -, -, hh⟩ := stepCWrite_some h
+    rcases hh with ⟨-, -, rfl⟩ | ⟨-, -, rfl⟩ <;> exact Or.inr ⟨by simp, rfl⟩
+  | cStep =>
+    obtain ⟨-, -, hcs⟩ := stepCStep_some (c := c) h
+    cases hcs with
+    | fallOff hs h => subst h; exact Or.inr ⟨by simp, rfl⟩
+    | copyDone blk' dst r hs h => subst h; exact Or.inr ⟨by simp, rfl⟩
+    | emitNull bs r hs h => subst h; exact Or.inr ⟨by simp, rfl⟩
+    | emit d bs r hs hd h => subst h; exact Or.inr ⟨by simp, rfl⟩
+    | nop r hs h => subst h; exact Or.inr ⟨by simp, rfl⟩
+    | exit code r hs h => subst h; exact Or.inr ⟨by simp, rfl⟩
+    | kill sg r hs h => subst h; exact Or.inr ⟨by simp, rfl⟩
+
+/-- number of completed `wait`s in a schedule -/
+def waits (es : List Ev) : Nat := es.count .wtDone
+
+theorem waits_run {c : Cfg} {s s' : St} {es : List Ev} (h : run c s es = some s') :
+    b2n s.wt.isDone + waits es = b2n s'.wt.isDone := by
+  induction es generalizing s with
+  | nil => simp [run] at h; subst h; simp [waits]
+  | cons e es ih =>
+    simp only [run_cons] at h
+    cases hs : step c s e with
+    | none => simp [hs] at h
+    | some s2 =>
+      simp only [hs] at h
+      have := ih h
+      rcases step_wt hs with ⟨h1, h2, h3⟩ | ⟨h1, h2⟩
+      · subst h1
+        simp only [waits, List.count_cons_self] at this ⊢
+        simp only [h2, h3, b2n] at this ⊢
+        simp at this ⊢
+        omega
+      · have hc : waits (e :: es) = waits es := by
+          simp only [waits]
+          rw [List.count_cons_of_ne h1]
+        rw [hc, ← h2]; exact this
+
+/-! ## configurations used by the non-vacuity examples -/
+
+/-- 2-byte pipes, io_uring, everything concurrent -/
+def exCfg : Cfg :=
+  { capIn := 2, capOut := 2, capErr := 2, wchunk := 3, rchunk := 1, blocking := false, pidfd := true, plan := .conc }
+
+/-- write everything, then read; stdin pipe 2, stdout pipe 1 -/
+def seqCfg : Cfg :=
+  { capIn := 2, capOut := 1, capErr := 1, wchunk := 5, rchunk := 5, blocking := false, pidfd := false, plan := .seq }
+
 end Compio.ChildIo
